@@ -11,11 +11,13 @@ import (
 )
 
 // Watchdog runs f in its own goroutine (under recover).  If f does not return
-// within d, a goroutine dump is taken: hung reports the dump when the
-// goroutine running f is parked in a state named by one of the needles (a
-// state that cannot make progress given what the harness set up, e.g.
-// "syscall.Flock" on a file this very process still holds open); when it is
-// merely slow, slow is true.  The goroutine is abandoned in both cases.
+// within d, a goroutine dump is taken and every goroutine is matched against
+// the needles: a needle is a '+'-separated conjunction of substrings, and a
+// goroutine whose stack contains all substrings of some needle is parked in a
+// state that cannot make progress given what the harness set up (e.g.
+// "syscall.Flock+updog/driver" = waiting for a file lock this very process
+// holds).  hung then carries that goroutine's stack.  When nothing matches,
+// the action is merely slow (slow=true).  The goroutine is abandoned.
 func Watchdog(d time.Duration, needles []string, f func() error) (err error, hung string, slow bool) {
 	done := make(chan error, 1)
 	go func() { done <- Safe(f) }()
@@ -24,15 +26,19 @@ func Watchdog(d time.Duration, needles []string, f func() error) (err error, hun
 		return e, "", false
 	case <-time.After(d):
 	}
-	buf := make([]byte, 1<<20)
+	buf := make([]byte, 4<<20)
 	n := runtime.Stack(buf, true)
 	dump := string(buf[:n])
 	for _, g := range strings.Split(dump, "\n\n") {
-		if !strings.Contains(g, "fix.Watchdog.func1") {
-			continue
-		}
 		for _, nd := range needles {
-			if strings.Contains(g, nd) {
+			all := true
+			for _, part := range strings.Split(nd, "+") {
+				if !strings.Contains(g, part) {
+					all = false
+					break
+				}
+			}
+			if all {
 				if len(g) > 3000 {
 					g = g[:3000]
 				}
